@@ -182,8 +182,15 @@ func raceSignature(rep string) (string, bool) {
 		}
 	}
 
-	// An access performed by harness or scheduler code is an access to harness memory.
-	if strings.HasPrefix(top[0], "verif/") || strings.HasPrefix(top[1], "verif/") || (cacheFn[0] == "" && cacheFn[1] == "") {
+	// Harness-only: neither stack runs through bool64/cache, or an access is performed by the scheduler, a shim or
+	// the virtual clock themselves (their own bookkeeping words). An access performed by CLIENT code of the harness
+	// (verif/harness: rewriting its own key buffer after a call returned, reading the key bytes a Walk callback was
+	// handed) counts when the other side runs through bool64/cache: the library then shares caller-owned memory.
+	infra := func(fn string) bool {
+		return strings.HasPrefix(fn, "verif/vsched") || strings.HasPrefix(fn, "verif/shim") || strings.HasPrefix(fn, "verif/vclock")
+	}
+
+	if infra(top[0]) || infra(top[1]) || (cacheFn[0] == "" && cacheFn[1] == "") {
 		return "harness-only " + top[0] + " <-> " + top[1], false
 	}
 
@@ -193,7 +200,7 @@ func raceSignature(rep string) (string, bool) {
 		if cacheFn[s] != "" {
 			tops = append(tops, cacheFn[s])
 		} else {
-			tops = append(tops, "caller:"+top[s])
+			tops = append(tops, "caller code (owns the memory)")
 		}
 	}
 
@@ -262,11 +269,17 @@ func c16BackendBody(cc c16Cell) func() {
 			return func() {
 				switch o {
 				case 0:
-					_, _ = b.Read(ctx, keys[0])
+					kb := append([]byte(nil), keys[0]...)
+					_, _ = b.Read(ctx, kb)
+					kb[0] ^= 0xff // the key buffer is the caller's: it is rewritten once the call has returned
 				case 1:
-					_ = b.Write(wctx, keys[0], 9)
+					kb := append([]byte(nil), keys[0]...)
+					_ = b.Write(wctx, kb, 9)
+					kb[0] ^= 0xff
 				case 2:
-					_ = b.Delete(ctx, keys[0])
+					kb := append([]byte(nil), keys[0]...)
+					_ = b.Delete(ctx, kb)
+					kb[0] ^= 0xff
 				case 3:
 					b.ExpireAll(ctx)
 				case 4:
@@ -279,6 +292,10 @@ func c16BackendBody(cc c16Cell) func() {
 						n += len(k) + int(at.UnixNano()&1)
 						_ = v
 
+						for _, c := range k {
+							n += int(c) // the key bytes are read, not only the slice header
+						}
+
 						return nil
 					})
 				case 7:
@@ -289,7 +306,9 @@ func c16BackendBody(cc c16Cell) func() {
 				case 9, 10:
 					b.Cleanup()
 				case 11:
-					b.Index().AddInvalidationLabels(keys[0], "L")
+					kb := append([]byte(nil), keys[0]...)
+					b.Index().AddInvalidationLabels(kb, "L")
+					kb[0] ^= 0xff
 				case 12:
 					_, _ = b.Index().InvalidateByLabels(ctx, "L")
 				}
@@ -506,7 +525,7 @@ func init() {
 	Register(&Prop{
 		ID: "C16", Title: "The public API is free of data races",
 		Cells: c16Cells, Run: c16Run, Race: true,
-		Rule: "client programs: EVERY unordered pair (self-pairs included) of {Read, Write, Delete, ExpireAll, DeleteAll, Len, Walk (reading Key/Value/ExpireAt), Dump, Restore, cleanup, cleanup+eviction, AddInvalidationLabels, InvalidateByLabels} " +
+		Rule: "client programs: EVERY unordered pair (self-pairs included) of {Read, Write, Delete, ExpireAll, DeleteAll, Len, Walk (reading Key bytes/Value/ExpireAt), Dump, Restore, cleanup, cleanup+eviction, AddInvalidationLabels, InvalidateByLabels} " +
 			"on a shared instance x 3 backends x 3 eviction strategies; every pair of InvalidationIndex operations; two Gets on one key for Failover/FailoverOf x entry state x builder outcome x SyncUpdate x SyncRead incl. the background build; two Gets on two keys under one shared TTL-carrying caller context; Invalidate || Invalidate; " +
 			"thorough adds all triples of the operations that touch entries in place. For each program ALL interleavings of its synchronisation operations within the bound are executed in a -race build whose scheduler hand-offs are invisible to the detector; " +
 			"the race detector is the per-execution oracle; a violation's signature is the unordered pair of top bool64/cache frames of the two accesses",
@@ -514,6 +533,7 @@ func init() {
 			"the detector judges the Go memory model's happens-before relation; larger client programs than pairs/triples are not explored",
 			"abstraction: 4 instead of 128 shards in the instrumented build (vinst -const shards=4)",
 			"package-level GobRegister is not an instance named in the statement and is excluded",
+			"single-key operations pass a key buffer of their own and rewrite it after the call returned (a kept reference shows up as a race with Walk/Dump/eviction)",
 			"races whose two stacks contain no bool64/cache frame are harness-internal and are reported as harness problems, never as violations",
 		},
 	})
